@@ -91,6 +91,9 @@ def make_field(rng, n, n_pol, noise, amp):
         s = np.repeat(rng.integers(0, 2, (shape[0] if n_pol == 2 else 1, (n + 7) // 8)), 8, axis=-1)[..., :n].reshape(shape) + 0.05 + 0j
     s = s * amp
     nz = (rng.normal(0, 1, shape) + 1j * rng.normal(0, 1, shape)) * amp * 10 ** rng.uniform(-2, -0.5) if noise else None
+    if rng.integers(8) == 0:                              # real-dtype field (and noise)
+        s = np.real(s).copy()
+        nz = None if nz is None else np.real(nz).copy()
     return T.optical_signal(s, nz)
 
 
